@@ -40,6 +40,8 @@ func main() {
 		os.Exit(runTreeReplay(os.Args[2:]))
 	case "cli-replay":
 		os.Exit(runCliReplay(os.Args[2:]))
+	case "getdag-replay":
+		os.Exit(runGetDagReplay(os.Args[2:]))
 	case "traversal-replay":
 		os.Exit(runTraversalReplay(os.Args[2:]))
 	case "parser-limits":
